@@ -436,6 +436,13 @@ def c18_twin(a, col, budget=None):
         for i in range(int(rng.integers(4, 10))):
             try:
                 st = gen.next_step(runner)
+                if st is not None and rng.random() < 0.15:
+                    # a request that names a subsystem of ANOTHER envelope / composite: whether it is rejected must
+                    # not depend on whether that foreign subsystem happens to hold an equal value
+                    from pwv.drivers_misc import make_fault
+                    fs = make_fault(gen, gen.view(runner), rng, "outside-container")
+                    if fs is not None:
+                        st = fs
             except Exception as e:  # noqa: BLE001
                 col.extra.setdefault("harness_errors", []).append(f"{type(e).__name__}: {e}"[:200])
                 break
